@@ -432,7 +432,13 @@ func genWild(t *rapid.T) Case {
 	return c
 }
 
+// nest is a list type whose elements are lists of the same type
+type nest []nest
+
 type wildTarget struct {
+	LN nest            `config:"l"`
+	AN nest            `config:"a"`
+	ON map[string]nest `config:"o"`
 	A  node                   `config:"a"`
 	B  *node                  `config:"b"`
 	C  []string               `config:"c"`
